@@ -10,7 +10,14 @@ unsigned int UNIT(UFUNC)(ukey_t *d, unsigned long n, ukey_t *q, unsigned long *o
 VERIF_MAIN {
   const unsigned long n = N;
   unsigned long long ord[N]; ukey_t d[N];
+#ifdef FIXED_DATA
+  /* one concrete data set (stated in the job), every query key symbolic: the construction (incl. the cell width of a dynamic-width
+     sdsl::int_vector<0>) is constant-propagated, the query runs symbolically over the whole key domain */
+  static const unsigned long long fixed_ord[N] = { FIXED_DATA };
+  for (int i = 0; i < N; i++) { ord[i] = fixed_ord[i]; d[i] = (ukey_t) ord[i]; }
+#else
   for (int i = 0; i < N; i++) { ord[i] = IN(i ? ord[i - 1] : 0, ORD_MAX - 1); d[i] = (ukey_t) ord[i]; }
+#endif
   unsigned long long qo = IN(0, ORD_MAX - 1); ukey_t q = (ukey_t) qo;
   unsigned long out[5] = {0, 0, 0, 0, 0};
   unsigned int rc = UNIT(UFUNC)(d, n, &q, out);
